@@ -432,6 +432,7 @@ func rulesC04(w *World, r *Report) {
 			fmt.Sprintf("every path to this return passes the insertion=%v; stored ordinal = %s", !reachable, valueDesc))
 	}
 	r.floor("C04.R2 not-found returns of the registrar", nR, 1)
+	w.ruleRefKeyPins(r, "C04.R2 a miss inserts and takes the next ordinal")
 
 	// R3 decoder: container readers
 	rd := w.fn("(*Decoder).ReadData")
@@ -549,6 +550,37 @@ func rulesC04(w *World, r *Report) {
 }
 
 func stripHex(s string) string { return s }
+
+// ruleRefKeyPins: the ref-table key holds addresses as pointers.
+func (w *World) ruleRefKeyPins(r *Report, rule string) {
+	// the table must keep the addresses it is keyed on alive: an address stored as an
+	// integer does not pin the temporary copy made for a by-value struct, and the
+	// collector may hand the same address to a later value
+	fi := w.encRefField()
+	if _, st := w.structOf("Encoder"); st != nil && fi >= 0 {
+		if mt, ok := st.Field(fi).Type().Underlying().(*types.Map); ok {
+			bad := ""
+			var scan func(t types.Type)
+			scan = func(t types.Type) {
+				switch u := t.Underlying().(type) {
+				case *types.Basic:
+					if u.Kind() == types.Uintptr {
+						bad = "uintptr"
+					}
+				case *types.Struct:
+					for i := 0; i < u.NumFields(); i++ {
+						scan(u.Field(i).Type())
+					}
+				}
+			}
+			scan(mt.Key())
+			r.add(rule, "ref table key retains the address as a pointer", "-", bad == "",
+				map[bool]string{true: "key type " + typeStr(mt.Key()) + " holds the address as a pointer: the keyed object cannot be collected and its address reused while the table lives", false: "key type " + typeStr(mt.Key()) + " stores the address as uintptr: the temporary copy of a by-value struct can be collected and its address reused by a later value, which is then written as a back-reference to the earlier one"}[bad == ""])
+		}
+	}
+
+}
+
 
 // ---- C05 ----
 
